@@ -22,8 +22,12 @@ CLAIMS = {
             'trusted: extractor incl. //@item, format! builders uninterpreted, derive(PartialOrd) via Kani', '§5-C18'),
     'C19': ('proof', 'Config::from_raw is proved to keep exactly the valid diagnostic codes and valid glob patterns element-wise (order preserved, other settings passed through) and is_diagnostic_disabled to be membership; lemmas: bad entries are ignored individually, settings are independent. The publish path and TOML parsing are not covered.',
             'trusted: glob::Pattern::new abstract, slice::contains / String==str / filter_map wrapper assumed', '§5-C19'),
-    'C06': ('proof', 'Verus discharges, for all inputs and all loop iterations, exact postconditions (effect + frame) of the index-maintenance functions extracted from /repo (record_*, cleanup_*).',
-            'trusted: extractor, sequential view, DashMap/HashSet shims; visitors and parser abstract', '§5-C06'),
+    'C06': ('proof', 'analyze_file_internal is proved, for every text and every index state, to (i) keep the whole index when the text does not parse, (ii) otherwise replace exactly the analysed file\'s entries: the index is the old one with F\'s definitions/usages cleaned (exact postconditions of cleanup_definitions_for_file / cleanup_usages_for_file, proved in unit index_maint) plus what the visitors record for the current text; lemmas: under the reverse-index invariant W1 the entries of F after an analysis are exactly those of the current text whatever was there before, other files\' entries are untouched in order. The visitors are abstract (A7).',
+            'trusted: extractor, sequential view, DashMap/HashSet shims, parser abstract (parse_ok/ast_of), visitors abstract (vdefs/vuses, A7)', '§5-C06'),
+    'C07': ('proof', 'The memo wrappers get_available_fixtures and detect_fixture_cycles are proved to return what a recomputation returns (warm == cold) under a cache invariant, and to re-establish it; analyze_file_internal is proved to move definitions_version on every call (after fix), which is what keeps the invariant across edits. Three genuine defects found on the way were repaired (F-07a/b/c).',
+            'trusted: as C06; compute_* abstract; get_imported_fixtures memo and eviction not under contract', '§5-C07'),
+    'C10': ('proof', 'Sequential clauses only: the contract of analyze_file_internal gives, for both orders of {scan analyses F from disk, editor analyses F from the buffer}, the resulting entries of F; lemma restore: one further analyze_file(F, t) makes F\'s entries exactly those of t; lemma fresh-keeps-old: analyze_file_fresh on a non-empty index keeps the old entries — known finding F-10 (open then scan yields both).',
+            'no thread model: interleavings are out of reach (see DESIGN §2)', '§5-C10'),
 }
 
 NOT_APPLICABLE = {
